@@ -16,7 +16,7 @@ gvars == <<vars, hist, ev0>>
 H(x) == hist' = Append(hist, x) /\ ev0' = ev0
 RECURSIVE SortSlots(_)
 SortSlots(S) == IF S = {} THEN <<>> ELSE LET m == CHOOSE x \in S : \A y \in S : x <= y IN <<m>> \o SortSlots(S \ {m})
-OpRec(in, op) == [t |-> "op", in |-> in, k |-> op.k, e |-> op.e, fd |-> op.fd]
+OpRec(in, op) == [t |-> "op", in |-> in, k |-> op.k, e |-> op.e, fd |-> op.fd, m |-> op.m, os |-> op.os]
 
 \* a complete configuration: event e is initialised on cfg[e].fd (0 = not) and enabled iff cfg[e].en
 RichInit ==
@@ -31,25 +31,26 @@ RichInit ==
   /\ pool = <<>>
   /\ (IF InitMode = "rich-any" THEN ready \in [FD -> SUBSET Conds] ELSE ready = [fd \in FD |-> Conds]) /\ closed = [fd \in FD |-> FALSE]
   /\ phase = "idle" /\ rlist = {} /\ cur = NoCur /\ copy = <<>> /\ run = 0 /\ opsLeft = 0 /\ passes = 0
-  /\ pins = {} /\ pollReady = [fd \in FD |-> {}] /\ cbEn = FALSE /\ viol = {}
+  /\ pins = {} /\ timer = "off" /\ bad = FALSE /\ pollReady = [fd \in FD |-> {}] /\ cbEn = FALSE /\ viol = {}
 GInit == (IF InitMode = "empty" THEN Init ELSE RichInit) /\ hist = <<>> /\ ev0 = [ev |-> ev, ready |-> ready]
 
 MainOK == InitMode = "empty" \/ (InitMode = "rich-any" /\ passes > 0)
 GMainOp == MainOK /\ \E op \in MainOps : MainOp(op) /\ H(OpRec(0, op))
 GSetReady == MainOK /\ \E fd \in FD, S \in SUBSET Conds : SetReady(fd, S) /\ ready[fd] # S /\ H([t |-> "ready", fd |-> fd, s |-> S])
 GPoll == Poll /\ H([t |-> "poll"])
+GTimer == TimerCb /\ H([t |-> "timer"])
 GNextFd == DoNextFd /\ UNCHANGED <<hist, ev0>>
 GSub == \E e \in E : Sub(e) /\ IF run' # 0 THEN H([t |-> "cb", e |-> e]) ELSE UNCHANGED <<hist, ev0>>
 GCbOp == \E op \in Ops : CbOp(op) /\ H(OpRec(run, op))
 GRet == CbReturn /\ UNCHANGED <<hist, ev0>>
 GFinish == FinishFd /\ UNCHANGED <<hist, ev0>>
 GEndPass == EndPass /\ UNCHANGED <<hist, ev0>>
-GNext == GMainOp \/ GSetReady \/ GPoll \/ GNextFd \/ GSub \/ GCbOp \/ GRet \/ GFinish \/ GEndPass
+GNext == GMainOp \/ GSetReady \/ GPoll \/ GTimer \/ GNextFd \/ GSub \/ GCbOp \/ GRet \/ GFinish \/ GEndPass
 GSpec == GInit /\ [][GNext]_gvars
 
 Done == passes = MaxPass /\ phase = "idle" /\ run = 0
 Emit == IF Done \/ Len(hist) >= Depth
-        THEN (IF passes > 0 /\ phase = "idle" /\ (\E i \in 1..Len(hist) : hist[i].t = "cb")
+        THEN (IF passes > 0 /\ phase = "idle" /\ (\E i \in 1..Len(hist) : hist[i].t \in {"cb", "timer"})
               THEN PrintT("BEH " \o ToJson([init |-> ev0, hist |-> hist])) ELSE TRUE) /\ FALSE
         ELSE TRUE
 =============================================================================
